@@ -4,7 +4,7 @@ for d in "$@"; do
   wt=$(mktemp -d /tmp/mut-rb-XXXXXX); rmdir $wt
   git -C /repo worktree add --detach $wt HEAD -q || continue
   if git -C $wt apply $d/patch.diff 2>/dev/null; then echo "$d: applies cleanly"; else
-    if git -C $wt apply --3way $d/patch.diff 2>/dev/null || (cd $wt && patch -p1 --fuzz=3 < $d/patch.diff >/dev/null 2>&1); then
+    if git -C $wt apply --3way $d/patch.diff 2>/dev/null || (git -C $wt reset -q --hard HEAD && cd $wt && patch -p1 --fuzz=3 < $d/patch.diff >/dev/null 2>&1 && ! grep -rlq '^<<<<<<< ' $wt/bionumpy); then
       [ -f $d/patch.orig.diff ] || cp $d/patch.diff $d/patch.orig.diff
       git -C $wt reset -q; git -C $wt diff > $d/patch.diff; echo "$d: rebased ($(wc -l < $d/patch.diff) lines)"
     else echo "$d: DOES NOT APPLY"; fi
